@@ -838,3 +838,30 @@ def c09_g7(ctx):
             yield bad("C09-G7", key, at(f, t["span"]["line"]), "the gap ending at %s is reported without a test that %s lies before the window end: the gap can extend beyond the requested window (state %s)" % (z, z, world_str(w) if w is not None else "unreachable"))
     if n == 0:
         raise Anchor("C09-G7", "gap pushes ending at a held range's start")
+
+
+@rule("C09", "C09-G8", 1, "the list of held ranges of a receive transaction is only ever changed by recording a written segment (Segments::merge in store_file_data): it is never reset or replaced while the staged bytes exist", also=("C01", "C04"))
+def c09_g8(ctx):
+    fns = impl_and_closures(ctx, RECV)
+    n = 0
+    for f in fns:
+        fname = f.name if f.kind != "Closure" else short(f.root or f.norm).split("::")[-1]
+        for _f, b, j, s, ps in field_writes([f], "self.saved_segments"):
+            if fname == "new":
+                continue
+            n += 1
+            yield bad("C09-G8", "RecvTransaction::%s:saved_segments=" % fname, at(f, s["span"]["line"]), "the held-range list is overwritten: bytes already staged are forgotten (later duplicates count as new data; sizes and completeness are judged on a different set than the file holds)")
+        eb = ExprBuilder(ctx.prog, f, inline=False)
+        for b, t in f.all_calls():
+            e = eb.call(b, t)
+            if not e[3] or expr_str(e[3][0]) != "&mut self.saved_segments":
+                continue
+            n += 1
+            last = (callee_name(e) or "").split("::")[-1]
+            key = "RecvTransaction::%s:saved_segments.%s" % (fname, last)
+            if last == "merge" and fname == "store_file_data":
+                yield ok("C09-G8", key, at(f, t["span"]["line"]), "recording a written segment")
+            else:
+                yield bad("C09-G8", key, at(f, t["span"]["line"]), "the held-range list is mutated by %s in %s" % (last, fname))
+    if n == 0:
+        raise Anchor("C09-G8", "mutations of RecvTransaction.saved_segments")
